@@ -33,6 +33,9 @@ package db
 //@   fresh es
 //@   pure
 //@   ensures err == nil ==> len(es) == dbcount(d)
+//@   ensures (err == nil) == dbok(d)
 
 // dbcount(d): number of stored entities (the accessory's own entity included)
 //@ ghost dbcount(ref) int
+// dbok(d): the store can be listed (no I/O error)
+//@ ghost dbok(ref) bool
